@@ -61,7 +61,7 @@ Proof. exact negative_index_refuted. Qed.
 Example C04_negative_index_values :
   model (CHist [v123; OGet 0 (i_ (-1)) None; OContains 0 (i_ (-1)); OAssoc 0 (i_ (-1)) (k_ 1)]) =
   OOut [RColl (CVec [i_ 1; i_ 2; i_ 3]) None; RVal (i_ 3); RBool false; RColl (CVec [i_ 1; i_ 2; k_ 1]) None]
-       [true; true; true; true] [].
+       true [].
 Proof. exact negative_index_values. Qed.
 (** with non-negative indices Python indexing is the specification's indexing *)
 Theorem C04_nonneg_index_is_clojure_index : forall l i x, (0 <= i)%Z ->
@@ -105,7 +105,7 @@ Proof. exact with_meta_nil_refuted. Qed.
 Example C04_with_meta_nil_values :
   model (CHist meta_witness) =
   OOut [RColl (CVec [i_ 1]) None; RColl (CVec [i_ 1]) (Some 1%N); RColl (CVec [i_ 1]) (Some 1%N); RNum 1]
-       [true; true; true; true] [].
+       true [].
 Proof. exact with_meta_nil_values. Qed.
 
 (** which operations keep / set / drop metadata in the wrappers: conj assoc dissoc disj
